@@ -180,3 +180,181 @@ def c02_block_double_spend(ctx, v):
     re-spend (same obligation as C01 c01_block_double_spend)."""
     from . import obl_c01
     obl_c01.c01_block_double_spend(ctx, v)
+
+
+def _path_key(a):
+    return (a.cell, tuple((p[0], S.as_int(p[1]) if p[0] == "i" else p[1]) for p in a.path)) if isinstance(a, S.Ref) else None
+
+
+def c02_upgrade_recomputes_ledger_keys(ctx, v):
+    """Block::upgrade_block_to_block_type(Full) — how a pruned block gets its transactions back
+    from disk before it is unwound in a reorganisation below the pruning depth.  A slip decoded
+    from disk carries no ledger key (the cached `utxoset_key` is not on the wire), and
+    Slip::on_chain_reorganization / Slip::validate use that cached key: if it is not recomputed
+    the unwind neither restores the block's inputs nor removes its outputs, and value is lost or
+    stays spendable twice.  Decided in three steps over the real MIR:
+      (1) every path of the upgrade that answers true after loading a block of 1..=2 transactions
+          ran, after taking the transactions over, Block::generate on the block itself (or
+          Transaction::generate on each transaction it now holds, or Slip::generate_utxoset_key on
+          each of their slips);
+      (2) Block::generate runs Transaction::generate on every transaction it holds (1..=2);
+      (3) Transaction::generate runs Slip::generate_utxoset_key on every input and every output
+          (1..=2 each, every slip type).
+    The disk read is a stub returning an arbitrary block; hashing / merkle root are not entered."""
+    fi_tx = ctx.field_index("Block", "transactions")
+    fi_from, fi_to = ctx.field_index("Transaction", "from"), ctx.field_index("Transaction", "to")
+
+    def mk_txs(ex, n, nin=1, nout=1):
+        txs, pre = [], []
+        for i in range(n):
+            t = ex.fresh_value("TransactionType", "tx%d.type" % i)
+            ins = [L.sym_slip(ctx, ex, "tx%d.in%d" % (i, k)) for k in range(nin)]
+            outs_ = [L.sym_slip(ctx, ex, "tx%d.out%d" % (i, k)) for k in range(nout)]
+            txs.append(ctx.mk_struct(ex, "Transaction", "tx%d" % i, transaction_type=t, **{"from": S.Seq(ins, "Slip"), "to": S.Seq(outs_, "Slip"), "path": S.Seq([], "Hop")}))
+            pre.append(L.enum_in_range(t, L.TX_TYPES))
+            for s in ins + outs_:
+                pre.append(L.enum_in_range(L.slip_field(ctx, s, "slip_type"), L.SLIP_TYPES))
+                pre.append(z3.ULE(L.slip_field(ctx, s, "amount").bv, 7 * 10**17))
+        return txs, pre
+
+    def logger(disk_block=None):
+        def hook(ex_, st, callee, args, dty):
+            if disk_block is not None and re.search(r"Storage::load_block_from_disk$", callee):
+                st.events.append(("call", callee, args, None))
+                res = S.EnumV("Result<Block, Error>", "Ok", None, {"Ok": S.Agg("variant", "Ok", [disk_block])})
+                return S.Agg("struct", "ReadyFuture", [res])
+            if re.search(r"Slip::generate_utxoset_key$", callee):
+                st.events.append(("keyed", callee, _path_key(args[0]), None))
+                return S.UNIT
+            if re.search(r"Transaction::generate$", callee) and "Transaction::generate$" in ex_.hooked:
+                st.events.append(("txgen", callee, _path_key(args[0]), None))
+                return z3.BoolVal(True)
+            if re.search(r"Block::generate$", callee) and "Block::generate$" in ex_.hooked:
+                st.events.append(("blockgen", callee, _path_key(args[0]), None))
+                return S.EnumV("Result<(), Error>", "Ok", None, {"Ok": S.Agg("variant", "Ok", [S.UNIT])})
+            return None
+        return hook
+    reached = 0
+    # ---- step 1: the upgrade
+    for n in (1, 2):
+        ex = ctx.executor(loop_bound=n + 4, inline="auto", max_paths=8000,
+                          no_inline=[r"Storage::", r"Block::generate$", r"Transaction::generate$", r"generate_hash_for_signature$", r"generate_total_work$", r"Slip::generate_utxoset_key$", r"fmt", r"to_hex"])
+        ex.pure = [r".*"]
+        ex.hooked = ("Transaction::generate$", "Block::generate$")
+        txs, pre = mk_txs(ex, n)
+        disk_block = ctx.mk_struct(ex, "Block", "disk_block", transactions=S.Seq(txs, "Transaction"))
+        bt = ex.fresh_value("BlockType", "block.block_type")
+        block = ctx.mk_struct(ex, "Block", "block", block_type=bt, transactions=S.Seq([], "Transaction"))
+        bcell = S.Cell(block)
+        ex.on_call = logger(disk_block)
+        st = S.State()
+        st.pc.extend(pre + [L.enum_in_range(bt, 4)])
+        full = S.EnumV("BlockType", "Full", dict(ctx.enums["BlockType"])["Full"])
+        body, co = L.coroutine(ctx, ex, r"block::<impl at [^>]*>::upgrade_block_to_block_type",
+                               [S.Ref(bcell, (), True), full, S.Ref(S.Cell(S.Opaque("storage", "Storage"))), z3.BoolVal(False)])
+        outs = ex.run(body, [S.Ref(S.Cell(co), (), True), S.Opaque("cx", "Context")], st)
+        v.paths += len(outs)
+        for o in outs:
+            if o.kind in ("unsupported", "unwound", "path-limit"):
+                return v.undecided("upgrade, n=%d: %s %s" % (n, o.kind, o.info))
+            if o.kind == "panic":
+                L.report_panic(v, ex, o, "n=%d: upgrade_block_to_block_type panics: %s" % (n, o.info))
+                continue
+            if o.kind != "return":
+                continue
+            loads = [k for k, e in enumerate(o.events) if e[0] == "call" and re.search(r"load_block_from_disk$", e[1])]
+            if not loads:
+                continue
+            res = L.ready_value(ex, o)
+            if z3.is_bool(res):
+                ok = res
+            elif isinstance(res, S.I):
+                ok = res.bv != 0
+            else:
+                return v.undecided("n=%d: answer of the upgrade is not a boolean value (%s)" % (n, type(res).__name__))
+            v.queries += 1
+            if not ex.feasible(o.pc, ok):
+                continue
+            sref = L.coroutine_arg_after(ex, o, "Block", 0)
+            if sref is None:
+                return v.undecided("n=%d: the block is not found in the coroutine's state" % n)
+            bcell = sref.cell
+            held = ex.deref_value(sref).fields[fi_tx]
+            if not (isinstance(held, S.Seq) and len(held.items) == n):
+                v.fail("n=%d: the upgrade answers true but the block does not hold the %d transaction(s) read from disk" % (n, n), dict(path=L.trace_text(o, 12)))
+                continue
+            after = o.events[loads[-1]:]
+            own = lambda e: e[2] is not None and e[2][0] is bcell
+            strip = lambda pth: tuple((p[0], p[1]) for p in pth)
+            if any(e[0] == "blockgen" and own(e) and e[2][1] == () for e in after):
+                reached += 1
+                continue
+            txm = {strip(e[2][1]) for e in after if e[0] == "txgen" and own(e)}
+            km = {strip(e[2][1]) for e in after if e[0] == "keyed" and own(e)}
+            missing = [i for i in range(n) if (("f", fi_tx), ("i", i)) not in txm and
+                       not all((("f", fi_tx), ("i", i), ("f", fld), ("i", 0)) in km for fld in (fi_from, fi_to))]
+            if missing:
+                v.fail("a block reloaded from disk (%d transaction(s)) is handed back as Full without recomputing the ledger keys of its slips (transaction %s): unwinding it later neither restores its inputs nor removes its outputs" % (n, ", ".join(map(str, missing))),
+                       dict(path=L.trace_text(o, 12), calls_after_load=[re.sub(r"<impl at [^>]*>", "", e[1])[-50:] for e in after][:12]))
+                continue
+            reached += 1
+    if not reached:
+        return v.undecided("no successful upgrade path was explored")
+    # ---- step 2: Block::generate -> Transaction::generate on every transaction
+    gen = ctx.body(r"block::<impl at [^>]*>::generate$")
+    for n in (1, 2):
+        ex = ctx.executor(loop_bound=n + 4, inline="auto", max_paths=8000,
+                          no_inline=[r"Transaction::generate$", r"generate_merkle_root$", r"generate_pre_hash$", r"generate_hash$", r"generate_transaction_hashmap$", r"serialize_for_signature$", r"generate_cumulative_fees$"])
+        ex.pure = [r".*"]
+        ex.hooked = ("Transaction::generate$",)
+        txs, pre = mk_txs(ex, n)
+        block = ctx.mk_struct(ex, "Block", "block", transactions=S.Seq(txs, "Transaction"))
+        bcell = S.Cell(block)
+        ex.on_call = logger()
+        st = S.State()
+        st.pc.extend(pre)
+        outs = ex.run(gen, [S.Ref(bcell, (), True)], st)
+        v.paths += len(outs)
+        for o in outs:
+            if o.kind in ("unsupported", "unwound", "path-limit"):
+                return v.undecided("Block::generate, n=%d: %s %s" % (n, o.kind, o.info))
+            if o.kind != "return":
+                continue
+            bcell = o.state.frames[0].locals["_1"].v.cell
+            txm = {tuple((p[0], p[1]) for p in e[2][1]) for e in o.events if e[0] == "txgen" and e[2] is not None and e[2][0] is bcell}
+            missing = [i for i in range(n) if (("f", fi_tx), ("i", i)) not in txm]
+            v.queries += 1
+            if missing and ex.feasible(o.pc):
+                from .models import as_enum, enum_is
+                r_ = as_enum(ex, o.value, "Result")
+                if ex.feasible(o.pc, enum_is(ex, r_, "Ok")):
+                    v.fail("Block::generate succeeds on a block of %d without running Transaction::generate on transaction %s" % (n, ", ".join(map(str, missing))), dict(path=L.trace_text(o, 12)))
+    # ---- step 3: Transaction::generate -> generate_utxoset_key on every slip
+    tgen = ctx.body(r"transaction::<impl at [^>]*>::generate$")
+    for nin, nout in ((1, 1), (2, 1), (1, 2), (2, 2)):
+        ex = ctx.executor(loop_bound=6, inline="auto", max_paths=8000, no_inline=[r"generate_hash_for_signature$", r"generate_total_work$", r"Slip::generate_utxoset_key$", r"fmt", r"to_hex"])
+        ex.pure = [r".*"]
+        ex.hooked = ()
+        txs, pre = mk_txs(ex, 1, nin, nout)
+        tcell = S.Cell(txs[0])
+        ex.on_call = logger()
+        st = S.State()
+        st.pc.extend(pre)
+        outs = ex.run(tgen, [S.Ref(tcell, (), True), S.Ref(S.Cell(ex.fresh_value("[u8; 33]", "creator"))), ex.fresh_value("u64", "tx_index"), ex.fresh_value("u64", "block_id")], st)
+        v.paths += len(outs)
+        for o in outs:
+            if o.kind in ("unsupported", "unwound", "path-limit"):
+                return v.undecided("Transaction::generate, %d in / %d out: %s %s" % (nin, nout, o.kind, o.info))
+            if o.kind == "panic":
+                L.report_panic(v, ex, o, "Transaction::generate panics: %s" % o.info)
+                continue
+            if o.kind != "return":
+                continue
+            tcell = o.state.frames[0].locals["_1"].v.cell
+            km = {tuple((p[0], p[1]) for p in e[2][1]) for e in o.events if e[0] == "keyed" and e[2] is not None and e[2][0] is tcell}
+            missing = ["input %d" % k for k in range(nin) if (("f", fi_from), ("i", k)) not in km] + ["output %d" % k for k in range(nout) if (("f", fi_to), ("i", k)) not in km]
+            v.queries += 1
+            if missing and ex.feasible(o.pc):
+                v.fail("Transaction::generate (%d in / %d out) returns without computing the ledger key of %s" % (nin, nout, ", ".join(missing)), dict(path=L.trace_text(o, 12)))
+    v.covers_total += 1
+    v.covers_sat += 1
